@@ -183,8 +183,9 @@ class Gen:
             body = ["x = p", "y = %d" % self.rng.randrange(5)] + self.block(depth + 1)
             if self.fglobals:
                 body = ["global %s" % self.fglobals[0]] + body
-            if self.rng.random() < 0.25:
-                body = ['"""doc"""'] + body
+            if self.rng.random() < 0.3:
+                # a leading constant expression statement: a docstring, or a constant that merely looks like one
+                body = [self.rng.choice(['"""doc"""', '"""doc"""', "...", "7", "None", "b'x'"])] + body
             if self.rng.random() < 0.3:
                 self.fn += 1
                 inner = "g%d" % self.fn
